@@ -54,7 +54,7 @@ CHECKS = {
     technique="Lean 4 proof (permutation theorems for the shuffle-buffer and round-robin monitors by counting invariants, lazy-pool exactly-once, batch concatenation, composed per interface; multiset equality written = enumerated through M-TREE for every history) + trace-acceptance correspondence of the real generators and end-to-end multiset comparison through all five interfaces",
     text="C02_shuffle_buffer_perm, C02_round_robin_perm, C02_round_robin_opens_all, C02_pool_perm, C02_batches_concat and their compositions "
          "C02_exactly_once_sync/_concurrent/_async: every complete run of an interface yields a permutation of (selected shards' examples).map g, for every shuffle size, "
-         "file_parallelism>=1 and schedule. The monitors are tied to /repo by replaying boundary traces of the real shuffle_buffer/round_robin (sync and async); "
+         "file_parallelism>=1 and schedule; C02Mid.lean: C02_shuffle_buffer_conserves / C02_round_robin_conserves / C02_shuffle_buffer_partial (at every reachable state of a pass, i.e. for every early stop, pulled = yielded + held as multisets). The monitors are tied to /repo by replaying boundary traces of the real shuffle_buffer/round_robin (sync and async); "
          "datasets are read through sync/concurrent/async/rust/tf.data and compared as multisets with process_record call counts."
          ' System level (SedpackProps/C02System.lean): C02_session_examples_perm / C02_history_examples_perm / C02_written_is_enumerated (the examples enumerated for a split after any history of sessions with fresh shard names are, as a multiset, exactly the examples the sessions stored for it) and C02_end_to_end (composed with the pipeline theorems: one pass of the synchronous, concurrent or asyncio interface or of the Rust reader (C02_exactly_once_rust over M-PMAP) - any shuffle size, parallelism and schedule - delivers a permutation of everything written).'
          ' C02Src.lean re-checks on the statement order extracted from the current source that no reading-side function stores anything on the dataset object and that every pass starts from shard_info_iterator (a pass is a function of the description as it is now).',
